@@ -272,6 +272,17 @@ theorem generated_el_mass (nm nmu : α) (z : Nat) (u : Unc) (h : (z, u) ∈ over
     (loadRows nm nmu PtGen.massTables).elMassOf z = some (u.eval : VU α) :=
   el_mass_override nm nmu PtGen.massTables (nodup_of_incr _ el_keys_sorted) z u h
 
+/-- an element without a standard atomic weight (Tc, Pm, Po … Og) is served the element-mass
+    column of the last of its isotope rows -/
+theorem generated_el_mass_from_rows (nm nmu : α) (z : Nat) (hz : z ≠ 0)
+    (hrows : ∃ y ∈ PtGen.isoMassRows, y.z = z) (hno : ∀ p ∈ overrides PtGen.elMassRows, p.1 ≠ z) :
+    ∃ r ∈ PtGen.isoMassRows, r.z = z ∧
+      (loadRows nm nmu PtGen.massTables).elMassOf z = some (r.avg.eval : VU α) := by
+  obtain ⟨pre, r, post, hsplit, hrz, hpost⟩ := exists_last_of_z PtGen.isoMassRows z hrows
+  refine ⟨r, by rw [hsplit]; simp, hrz, ?_⟩
+  subst hrz
+  exact el_mass_last_row nm nmu PtGen.massTables pre post r hsplit hpost hz hno
+
 /-- every isotope listed in the composition table – of every element, the last one (U)
     included – is served its normalised abundance -/
 theorem generated_abundance (nm nmu : α) (z : Nat) (entries : List (Nat × Unc))
